@@ -27,12 +27,16 @@ pub fn panic_class(prefix: &str, msg: &str) -> String {
 
 pub fn draw_job(rng: &mut Rng, c: &Corpus) -> Job {
     let k = rng.below(100);
-    if k >= 92 {
+    if k >= 86 {
         // generated programs (many symbols and asm blocks, ambiguous mnemonic
         // prefixes, several files of identical layout, programs on <std>),
         // as they are and as token-level mutants
         let mut disk = crate::disk::Disk::new(corpus::PROJ);
-        let root = match rng.below(9) {
+        let root = match rng.below(14) {
+            9 | 10 | 11 | 12 | 13 => {
+                disk.add_file("mix.asm", crate::c10::feature_mix_program(rng));
+                "mix.asm".to_string()
+            }
             4 | 5 => {
                 disk.add_file("banks.asm", crate::c10::bank_program(rng));
                 "banks.asm".to_string()
